@@ -105,7 +105,7 @@ Cancel(st, m) ==
             IN Ok(Bump(DelStream(s1, m.receiver, m.sender), m.receiver, m.sender, "ref", x.dep))
 
 ------------------------------------------------------------------------------
-StrParamsValid(p) == p.feeNum >= 0 /\ p.feeNum <= p.feeDen
+StrParamsValid(p) == p.feeDen > 0 /\ p.feeNum >= 0 /\ p.feeNum <= p.feeDen     \* feeDen = 0 encodes a nil decimal
 SetStrParams(st, p) == IF StrParamsValid(p) THEN Ok([st EXCEPT !.str.p = p]) ELSE Fail(st)
 
 ------------------------------------------------------------------------------
